@@ -2,11 +2,13 @@
 //
 //	protocol.URI.Parse(host, target).Path()   (reused URI with a Host value / fresh URI without) -> Norm{out, out0}
 //	utils.CleanPath(target)                                                           -> Clean{out}
-//	app.FS request handler over a sandbox tree with sentinel files outside the root   -> Served{path, status, sentinel}
+//	app.FS request handler over a sandbox tree with sentinel files outside the root   -> Served{path, status, sentinel, vh}
+//	  (vh: short targets also through app.NewVHostPathRewriter(0) with Host "..", ".", "a": sentinel served?)
 //
 // The targets are (a) every token string of length <= maxlen over the alphabet of bounds.json, enumerated here in
 // the shortlex order of spec/PathNorm.tla (the trace spec re-derives the order with Succ/Rank and rejects a gap),
-// split in contiguous chunks (one trace file each), and (b) seeded random longer strings over randAlphabet.
+// split in contiguous chunks (one trace file each), (b) seeded random longer strings over randAlphabet, and (c) the
+// first padTotal strings of the enumeration wrapped in each of the long pads of bounds.json (targets > 128 bytes).
 // The driver contains no expected values and never decides pass/fail.
 package main
 
@@ -41,6 +43,12 @@ type Bounds struct {
 	RandAlphabet []string `json:"randAlphabet"`
 	RandMin      int      `json:"randMin"`
 	RandMax      int      `json:"randMax"`
+	PadMax       int      `json:"padMax"`   // cores of length <= PadMax are also run wrapped in every pad
+	PadTotal     int64    `json:"padTotal"` // number of those cores
+	Pads         []struct {
+		Pre  []string `json:"pre"`
+		Post []string `json:"post"`
+	} `json:"pads"`
 }
 
 const marker = "SENTINEL-C07"
@@ -71,7 +79,11 @@ func concat(tok []string) []byte {
 type sandbox struct {
 	top, root string
 	h         app.HandlerFunc
+	vh        app.HandlerFunc // same root behind app.NewVHostPathRewriter(0): serves root/<Host>/<path>
 }
+
+// Host values tried with the virtual-host rewriter (short targets only)
+var vhosts = []string{"..", ".", "a"}
 
 func newSandbox() (*sandbox, error) {
 	top, err := os.MkdirTemp("", "wt_c07_fs_")
@@ -116,7 +128,18 @@ func newSandbox() (*sandbox, error) {
 		}
 	}
 	fs := &app.FS{Root: root, GenerateIndexPages: true, CacheDuration: time.Hour}
-	return &sandbox{top: top, root: root, h: fs.NewRequestHandler()}, nil
+	vfs := &app.FS{Root: root, GenerateIndexPages: true, CacheDuration: time.Hour, PathRewrite: app.NewVHostPathRewriter(0)}
+	return &sandbox{top: top, root: root, h: fs.NewRequestHandler(), vh: vfs.NewRequestHandler()}, nil
+}
+
+// serveVHost requests target with the given Host through the rewriting handler; only "was a sentinel served".
+func (s *sandbox) serveVHost(target []byte, host string) bool {
+	ctx := app.NewContext(0)
+	ctx.Request.Header.SetMethod("GET")
+	ctx.Request.SetRequestURI(string(target))
+	ctx.Request.Header.SetHost(host)
+	s.vh(context.Background(), ctx)
+	return bytes.Contains(ctx.Response.Body(), []byte(marker))
 }
 
 func (s *sandbox) serve(target []byte) (path []byte, status int, sentinel bool) {
@@ -173,7 +196,7 @@ type runner struct {
 // a leading slash (the normaliser decoded or removed something); cases whose Path() has fewer '/' than the target
 // has slashes (raw or as %2f/%2F), i.e. at least one segment was dropped or popped; FS responses by kind
 var stats struct {
-	Cases, Changed, Resolved, Served, Served200, Sentinel, Panics int64
+	Cases, Changed, Resolved, Served, Served200, Sentinel, VHost, Panics int64
 }
 
 func (r *runner) one(tok []string, withFS bool) {
@@ -222,7 +245,14 @@ func (r *runner) one(tok []string, withFS bool) {
 				}
 			}()
 			path, status, sentinel := r.sb.serve(target)
-			r.tr.Emit("Served", vtrace.Rec{"path": chars(path), "status": status, "sentinel": sentinel})
+			vh := []bool{}
+			if len(tok) <= *vhmax {
+				for _, h := range vhosts {
+					vh = append(vh, r.sb.serveVHost(target, h))
+					atomic.AddInt64(&stats.VHost, 1)
+				}
+			}
+			r.tr.Emit("Served", vtrace.Rec{"path": chars(path), "status": status, "sentinel": sentinel, "vh": vh})
 			atomic.AddInt64(&stats.Served, 1)
 			if status == 200 {
 				atomic.AddInt64(&stats.Served200, 1)
@@ -241,6 +271,8 @@ func must(err error) {
 	}
 }
 
+var vhmax = flag.Int("vhmax", 3, "targets of at most this many tokens are also requested through the vhost-rewriting FS handler")
+
 func main() {
 	boundsF := flag.String("bounds", "", "bounds.json written by PathNormGen")
 	out := flag.String("out", "", "output directory")
@@ -251,6 +283,7 @@ func main() {
 	caseF := flag.String("case", "", "run the single Case line(s) of this file instead of enumerating")
 	par := flag.Int("par", 8, "goroutines")
 	randper := flag.Int("randper", 2000, "random targets per trace file")
+	padchunks := flag.Int("padchunks", 2, "trace files per pad")
 	flag.Parse()
 	hlog.SetOutput(io.Discard)
 	hlog.SetLevel(hlog.LevelFatal)
@@ -284,7 +317,7 @@ func main() {
 		}
 		tr, err := vtrace.Create(filepath.Join(*out, "trace_000.ndjson"))
 		must(err)
-		tr.Emit("Chunk", vtrace.Rec{"mode": "free", "rank": 0, "n": len(cases), "fsmax": *fsmax})
+		tr.Emit("Chunk", vtrace.Rec{"mode": "free", "rank": 0, "n": len(cases), "fsmax": *fsmax, "pre": []string{}, "post": []string{}})
 		r := &runner{tr: tr, sb: sb}
 		for _, c := range cases {
 			r.one(c, sb != nil)
@@ -311,7 +344,9 @@ func main() {
 		mode        string
 		first, cnt  int64
 		randTargets [][]string
+		pre, post   []string
 	}
+	none := []string{}
 	var jobs []job
 	nc := int64(*chunks)
 	if nc > b.Total {
@@ -324,8 +359,26 @@ func main() {
 		if i < rem {
 			c++
 		}
-		jobs = append(jobs, job{file: fmt.Sprintf("trace_%03d.ndjson", i), mode: "enum", first: at, cnt: c})
+		jobs = append(jobs, job{file: fmt.Sprintf("trace_%03d.ndjson", i), mode: "enum", first: at, cnt: c, pre: none, post: none})
 		at += c
+	}
+	if b.PadTotal > 0 {
+		pc := int64(*padchunks)
+		if pc > b.PadTotal {
+			pc = b.PadTotal
+		}
+		for pi, pad := range b.Pads {
+			per, rem, at := b.PadTotal/pc, b.PadTotal%pc, int64(0)
+			for i := int64(0); i < pc; i++ {
+				c := per
+				if i < rem {
+					c++
+				}
+				pre, post := append([]string{}, pad.Pre...), append([]string{}, pad.Post...)
+				jobs = append(jobs, job{file: fmt.Sprintf("pad_%d_%03d.ndjson", pi, i), mode: "pad", first: at, cnt: c, pre: pre, post: post})
+				at += c
+			}
+		}
 	}
 	if *nrand > 0 {
 		rng := rand.New(rand.NewSource(*seed))
@@ -333,7 +386,7 @@ func main() {
 		var cur [][]string
 		flush := func() {
 			if len(cur) > 0 {
-				jobs = append(jobs, job{file: fmt.Sprintf("rand_%03d.ndjson", len(jobs)), mode: "free", randTargets: cur})
+				jobs = append(jobs, job{file: fmt.Sprintf("rand_%03d.ndjson", len(jobs)), mode: "free", randTargets: cur, pre: none, post: none})
 				cur = nil
 			}
 		}
@@ -372,20 +425,21 @@ func main() {
 			tr, err := vtrace.Create(filepath.Join(*out, j.file))
 			must(err)
 			r := &runner{tr: tr, sb: sb}
-			if j.mode == "enum" {
-				tr.Emit("Chunk", vtrace.Rec{"mode": "enum", "rank": j.first, "n": j.cnt, "fsmax": *fsmax})
+			if j.mode == "enum" || j.mode == "pad" {
+				tr.Emit("Chunk", vtrace.Rec{"mode": j.mode, "rank": j.first, "n": j.cnt, "fsmax": *fsmax, "pre": j.pre, "post": j.post})
 				idx := unrank(j.first, n)
-				tok := make([]string, 0, b.MaxLen+1)
+				tok := make([]string, 0, b.MaxLen+1+len(j.pre)+len(j.post))
 				for k := int64(0); k < j.cnt; k++ {
-					tok = tok[:0]
+					tok = append(tok[:0], j.pre...)
 					for _, x := range idx {
 						tok = append(tok, b.Alphabet[x])
 					}
-					r.one(tok, sb != nil && len(tok) <= *fsmax)
+					tok = append(tok, j.post...)
+					r.one(tok, j.mode == "enum" && sb != nil && len(tok) <= *fsmax)
 					idx = succ(idx, n)
 				}
 			} else {
-				tr.Emit("Chunk", vtrace.Rec{"mode": "free", "rank": 0, "n": len(j.randTargets), "fsmax": *fsmax})
+				tr.Emit("Chunk", vtrace.Rec{"mode": "free", "rank": 0, "n": len(j.randTargets), "fsmax": *fsmax, "pre": none, "post": none})
 				for _, t := range j.randTargets {
 					r.one(t, sb != nil)
 				}
